@@ -468,13 +468,11 @@ func vfC11ObjectHeaderV1(c *vfC11Ctx) {
 						ok = false
 					}
 					if d := vfC11CmpMsgs(ohw.Messages, oh.Messages); d != "" {
-						total := 0
-						for _, s := range sizes {
-							total += 8 + (s+7)/8*8
-						}
-						// shape: does the loss coincide with "message bytes exceed 16+8n"?
+						// shape: is the header's own "Object Header Size" field smaller than the
+						// message bytes that follow the 16-byte prefix? (read from the encoded bytes)
 						if d == "trailing-messages-dropped" || d == "messages-dropped" || d == "zero-size-messages-dropped" {
-							if total > 16+8*len(sizes) {
+							sizeField := int(binary.LittleEndian.Uint32(enc[addr+8:]))
+							if sizeField < len(enc)-addr-16 {
 								d += "/message-bytes-exceed-size-field"
 							}
 						}
@@ -912,7 +910,12 @@ func vfC11Datatypes(c *vfC11Ctx) {
 		}
 		for _, bits := range []uint32{0x000, 0x001, 0x011, 0x101, 0x111} {
 			for _, size := range []uint32{16, 8} {
-				run(fmt.Sprint(bi, bits, size), &DatatypeMessage{Class: DatatypeVarLen, Version: 0, Size: size, ClassBitField: bits, Properties: benc}, true, true, true, false)
+				// the encoder fixes the version itself (as the numeric encoders do): Version is
+				// not a field the encoder defines from its input, so it is enumerated (0 = what
+				// dataset_write.go passes, 1) but not compared
+				for _, ver := range []uint8{0, 1} {
+					run(fmt.Sprint(bi, bits, size, ver), &DatatypeMessage{Class: DatatypeVarLen, Version: ver, Size: size, ClassBitField: bits, Properties: benc}, false, true, true, false)
+				}
 			}
 		}
 	}
@@ -1303,7 +1306,7 @@ func vfC11Attribute(c *vfC11Ctx) {
 	var dts []dtc
 	for _, cd := range cands {
 		trim := cd.dt.Class == DatatypeOpaque
-		if w := vfC11DatatypeRT(c, cd.dt, true, true, len(cd.dt.Properties) > 0, trim, nil, false); w == "" {
+		if w := vfC11DatatypeRT(c, cd.dt, cd.dt.Class != DatatypeVarLen, true, len(cd.dt.Properties) > 0, trim, nil, false); w == "" {
 			dts = append(dts, cd)
 		} else {
 			c.r.Add("attribute_datatypes_masked_by_datatype_findings", 1)
